@@ -120,7 +120,7 @@ def domain_ok(data, fmt, blanks, minT, maxT, thr):
         return "textgrid-not-well-formed"
     lo = data["min"] if minT is None else minT
     hi = data["max"] if maxT is None else maxT
-    if not TC.collapse_free(dict(s, min=min(lo, data["min"]), max=max(hi, data["max"]))) or not lo < hi:
+    if not TC.collapse_free(dict(s, min=min(lo, data["min"]), max=max(hi, data["max"]))) or not TC.collapse_free(dict(s, min=lo, max=hi)) or not lo < hi:
         return "near-integer-rule-would-merge-distinct-timestamps"
     return None
 
